@@ -1771,3 +1771,66 @@ def run_inserted_detached(run, P, node_rec='coap_queue_t', insert='coap_insert_n
                               'queue the node left is linked into the send queue as well (sent twice, freed twice)' % (short(t)[:50], short(bad['e'])[:50], insert))
     run.require_count(n >= 1 or run.fixture_mode, 'R-TIMER-REC (inserted node detached): no node taken off a queue and handed to coap_insert_node() found')
     return n
+
+
+def run_error_class_agrees(run, P, deleter='coap_delete_observer', remover='coap_remove_option', obs_opt=6):
+    """R-OBS-REPLACE (an error reply ends the registration): where a response is prepared for an observer, the Observe option is taken out of it when its
+    class says it is no notification, and the observer is deleted when the class says error.  Over the classes a response can have that are not
+    success (4 and 5) the two tests - both comparisons of `code >> 5` with a constant, found as the class tests that control the two calls - agree:
+    a client that is told "not registered" (no Observe option in a 5.xx) is not kept on the observer list, and sibling sites agree with one another."""
+    import operator
+    OPS = {'==': operator.eq, '!=': operator.ne, '>': operator.gt, '>=': operator.ge, '<': operator.lt, '<=': operator.le}
+    run.rule('R-OBS-REPLACE')
+
+    def class_test(c):
+        c = strip(c)
+        if not (isinstance(c, dict) and c.get('k') == 'bin' and c.get('op') in OPS):
+            return None
+        for x, y, flip in ((c['l'], c['r'], False), (c['r'], c['l'], True)):
+            k = const_int(y)
+            if k is None:
+                continue
+            if any(isinstance(z, dict) and z.get('k') == 'bin' and z.get('op') == '>>' and const_int(z['r']) == 5 and
+                   any(isinstance(w, dict) and w.get('k') == 'mem' and w.get('f') == 'code' for w in walk(z['l'])) for z in walk(x)):
+                op = c['op']
+                if flip:
+                    op = {'>': '<', '<': '>', '>=': '<=', '<=': '>='}.get(op, op)
+                return frozenset(cl for cl in (4, 5) if OPS[op](cl, k))
+        return None
+    n = 0
+    sites = []
+    for f in sorted(P.lib_funcs(), key=lambda f: f['name']):
+        B = f['B']
+        got = {'del': [], 'rem': []}
+        for b, ev in P.events(f):
+            t = ev['e']
+            if t.get('k') != 'call':
+                continue
+            kind = None
+            if t.get('fn') == deleter:
+                kind = 'del'
+            elif t.get('fn') == remover and len(t.get('a') or ()) == 2 and const_int(t['a'][1]) == obs_opt:
+                kind = 'rem'
+            if not kind:
+                continue
+            for (cb, idx) in transitive_control_deps(f, b['id']):
+                cs = class_test((B[cb].get('term') or {}).get('cond'))
+                if cs is not None:
+                    if idx == 1:
+                        cs = frozenset((4, 5)) - cs
+                    got[kind].append((cs, ev['loc']))
+        if got['del'] and got['rem']:
+            for cs, loc in got['del']:
+                n += 1
+                run.instance('R-OBS-REPLACE', '%s: observer deleted for error classes %s' % (f['name'], sorted(cs)))
+                want = got['rem'][0][0]
+                ok = cs == want
+                run.oblige('R-OBS-REPLACE', ok, '%s:error-class-agrees' % f['name'])
+                sites.append((f['name'], cs))
+                if not ok:
+                    run.violation('R-OBS-REPLACE', f['name'], loc, 'error-class-disagrees',
+                                  'the Observe option is taken out of a reply of class %s (the client is told it is not registered) but the observer is deleted only for class %s: after a reply of '
+                                  'class %s the client stays on the observer list and keeps receiving notifications for a registration it was refused'
+                                  % (sorted(want), sorted(cs), sorted(want - cs) or sorted(cs - want)))
+    run.require_count(n >= (2 if run.cfg == 'base' else 1) or run.fixture_mode, 'R-OBS-REPLACE (error class): fewer than 2 sites that delete an observer under a response-class test found')
+    return n
